@@ -321,6 +321,11 @@ func init() {
 			mm = 3
 		}
 		p.TTL = time.Duration(mm+3+r.Intn(3)) * p.H
+		if mm >= 4 && r.Bool(0.25) {
+			// threshold larger than TTL/H: the record lapses during a long unhealthy streak, the
+			// count still decides when the health mechanism demotes
+			p.TTL = Pick(r, []time.Duration{3 * p.H, 4 * p.H})
+		}
 		n := 1 + r.Intn(2)
 		for i := 0; i < n; i++ {
 			c := InstCfg{ID: instName(i), Group: "g1", HasHealth: true, MaxHealth: m, HealthRest: "h", PromoteMode: Pick(r, []string{"block", "return"}), V: Pick(r, []time.Duration{0, 4 * p.H})}
@@ -859,6 +864,13 @@ func init() {
 		if r.Bool(0.3) {
 			p.Actions = append(p.Actions, Action{At: r.Dur(0, p.Until), Kind: AOutDelete, Key: "g1"})
 		}
+		if r.Bool(0.4) {
+			// answers that arrive after the library has given up on them (its per-operation
+			// time-outs are 1-2 s): the abandoned goroutines finish while the loops have moved on
+			from := r.Dur(0, p.Until/2)
+			p.Faults = append(p.Faults, Fault{Kind: FSlow, Inst: r.Intn(n), Op: Pick(r, []string{"update", "get", ""}), From: from, To: from + r.Dur(p.H, 5*p.H), Arg: r.Dur(1100*ms, 2500*ms)})
+			p.Until += 3 * sec
+		}
 		p.Sched = SchedCfg{Free: true, YieldProb: 1}
 		return p
 	}
@@ -1272,7 +1284,7 @@ func init() {
 	// afterwards the record is removed or left to expire, the application validates its token,
 	// and the instance may be started again with a new context.
 	families["ctxcancel"] = func(r *Rng) *Plan {
-		p := &Plan{Judge: []string{"C02", "C03", "C04", "C08", "C05", "C19"}}
+		p := &Plan{Judge: []string{"C02", "C03", "C04", "C08", "C05", "C19", "C06"}}
 		baseTiming(r, p, hLattice[:5])
 		n := 1 + r.Intn(3)
 		p.Insts = mkInsts(r, n, 1)
@@ -1293,7 +1305,7 @@ func init() {
 		}
 		if r.Bool(0.5) {
 			// (C02 speaks of records that only the elections touch)
-			p.Judge = []string{"C03", "C04", "C08", "C05"}
+			p.Judge = []string{"C03", "C04", "C08", "C05", "C19", "C06"}
 			p.NoJudge = []string{"C02"}
 			p.Actions = append(p.Actions, Action{At: t + r.Dur(0, 2*p.H), Kind: Pick(r, []string{AOutDelete, AExpire}), Key: "g1"})
 		}
